@@ -177,5 +177,9 @@ def run(chk: Check, repo: Repo) -> None:
             ok = (f"{recv}.xknx is not None", True) in fs or (f"{recv}.xknx is None", False) in fs or (f"{recv}.xknx", True) in fs
             chk.ob("unregistered-task-is-never-started", f_.site(c), ok, f"{f_.qualname}: `{ast.unparse(c)}` " + ("only where the task is registered (`.xknx is not None`)" if ok else "without testing that the task is registered - after its tasks were removed the call raises RuntimeError('Task must be registered before start().') in the middle of a dispatch"), key=f"restart-guard|{f_.qualname}|{recv}")
     chk.count("direct task restarts outside the registry", n_r)
+    # "not running while disconnected" rests on the `connected` flag Task._start / _start_internal test: it is cleared on
+    # every change to a state other than CONNECTED (C25's state-change cells, shared)
+    from .c25 import manager as connection_manager_cells
+    connection_manager_cells(chk, repo)
     chk.rule("E7 decision tables (abstract path enumeration) of Task.cancel/_start/restart/connection_lost/reconnected/_start_internal and TaskRegistry.start_task/remove_task/stop/connection_state_changed_cb; E6 task-slot writer census")
     chk.assume("connection_state_changed_cb is invoked once per real state change (C25)")
